@@ -323,8 +323,8 @@ pub fn run(ctx: &Ctx) {
     if known::active("F12") { ctx.known_finding("F12", "POSIX rules whose DST start and end fall in the same month take the wrong hemisphere branch: TZ=AAA0BBB,M3.1.0,M3.4.0, local 2023-12-25 00:00:07 -> not Single(+00:00)"); }
     ctx.assume("zone offsets are generated strictly inside (-24 h, 24 h), the documented range of FixedOffset");
     ctx.assume("wall-clock times that occur three or more times (tight transitions) are not claimed by the statement and only checked not to panic");
-    ctx.run_prop(&Synthetic, ctx.n(150_000, 5_000_000));
-    ctx.run_prop(&Rules, ctx.n(150_000, 5_000_000));
+    ctx.run_prop(&Synthetic, ctx.n(150_000, 10_000_000));
+    ctx.run_prop(&Rules, ctx.n(150_000, 10_000_000));
     let files = system_files();
     let pick: Vec<String> = match ctx.tier {
         crate::engine::Tier::Thorough => files,
